@@ -698,6 +698,11 @@ func (f *OrefaFile) WriteAt(b []byte, off int64) (n int, err error) {
 		return 0, fs.ErrInvalid
 	}
 
+	// As os.File does, WriteAt is refused on a file opened with O_APPEND (the error is not wrapped).
+	if f.openMode&avfs.OpenAppend != 0 {
+		return 0, avfs.ErrWriteAtInAppendMode
+	}
+
 	if off < 0 {
 		return 0, &fs.PathError{Op: "writeat", Path: f.name, Err: avfs.ErrNegativeOffset}
 	}
